@@ -8,7 +8,7 @@ wt=/tmp/mut-$$
 git -C /repo worktree add -q "$wt" HEAD || exit 2
 trap 'git -C /repo worktree remove --force "$wt"; git -C /repo worktree prune' EXIT
 git -C "$wt" apply "$patch" || { echo "patch does not apply: $patch"; exit 2; }
-cd /verif
+cd ${HTSV_VERIF:-/verif}
 for p in "$@"; do
   out=$(HTSV_NO_CORPUS=${HTSV_NO_CORPUS-1} HTS_SRC="$wt" ./bin/htsverif check "$p" --tier quick --no-evidence 2>&1); rc=$?
   line=$(echo "$out" | grep -E "^violation kind" | head -1)
